@@ -176,6 +176,20 @@ static Case cases[] = {
          arr.Sort(true);
          return (arr.First()[0] == 1 && arr.First()[149999] == 150000) ? 0 : 1;
      }},
+    {"stringify_member_pointing_to_undefined", [] {
+         Value<char> u;
+         Value<char> o;
+         o["a"] = 1;
+         o["b"].SetPointerToValue(&u);
+         o["c"] = 3;
+         Value<char> a;
+         a += 1;
+         a.AddPointerToValue(&u);
+         a += 3;
+         String<char> so = o.Stringify(), sa = a.Stringify();
+         const bool ok = so.IsEqual("{\"a\":1,\"c\":3}", 13) && sa.IsEqual("[1,3]", 5);
+         return ok ? 0 : (printf("object: %s array: %s\n", so.First(), sa.First()), 1);
+     }},
     // ---- C12 Value typestate
     {"value_remove_by_string_key", [] {
          Value<char> v = JSON::Parse("{\"abc\":1,\"d\":2}");
